@@ -80,6 +80,10 @@ def configs(tier):
     L.append(dict(strategy='cell', D=2, lmin=2, lmax=2, func='cornerpeak', norm=np.inf, single_step=True))
     L.append(dict(strategy='extendsplit', D=2, lmin=1, lmax=2, func='cornerpeak', norm=np.inf, recalc=2))
     L.append(dict(strategy='dimwise', D=2, lmin=1, lmax=2, func='product', norm=2, recalc=1, single_step=True))
+    # the integrand's value cache switched off before the run (deactivate_caching): the strategies that evaluate in batches still count their points
+    # (the cell strategy evaluates point by point; with the cache off its point count stays 0 and the run never stops - not driven, see DESIGN)
+    L.append(dict(strategy='dimwise', D=2, lmin=1, lmax=2, func='cornerpeak', norm=np.inf, nocache=True))
+    L.append(dict(strategy='extendsplit', D=2, lmin=1, lmax=2, func='vector', norm=2, nocache=True, timeout=120))
     # the library's own check of the final scheme switched on (test_scheme): it must not trip on any run
     L.append(dict(strategy='dimwise', D=2, lmin=1, lmax=2, func='vector', norm=np.inf, test_scheme=True))
     L.append(dict(strategy='extendsplit', D=2, lmin=1, lmax=2, func='cornerpeak', norm=2, test_scheme=True))
@@ -95,7 +99,7 @@ def run(tier, seed):
     nlims = 14 if tier == 'quick' else 40
     for c in configs(tier):
         name = '%s D=%d (%d,%d) %s norm=%s%s%s%s%s' % (c['strategy'], c['D'], c['lmin'], c['lmax'], c['func'], c['norm'], ' zero-ref' if c.get('zero_ref') else '', ' ' + c['ec'] if c.get('ec') else '',
-                                                 ' single_step' if c.get('single_step') else '', (' recalc=%d' % c['recalc'] if c.get('recalc') else '') + (' test_scheme' if c.get('test_scheme') else ''))
+                                                 ' single_step' if c.get('single_step') else '', (' recalc=%d' % c['recalc'] if c.get('recalc') else '') + (' test_scheme' if c.get('test_scheme') else '') + (' cache-off' if c.get('nocache') else ''))
         try:
             # probe: never stop by error, stop after nprobe evaluations (via a growing maximum)
             probe_events = None
@@ -107,7 +111,10 @@ def run(tier, seed):
                 mx = nps[-1]
             lims_list = DP.limit_grid(probe_events, rng, nlims)
         except impl.Timeout:
-            rep.exclude('%s: probe run timed out' % name)
+            # the probe runs carry a finite point budget: a run that is still going after the watchdog time (two orders of magnitude above its usual
+            # duration) has not stopped although the maximum was exceeded long ago
+            rep.violation('C13_StopsWhenMaximumExceeded', {'strategy': c['strategy'], 'probe': True, 'timeout': True},
+                          {'config': str(c), 'budget': mx, 'watchdog_s': c.get('timeout', 240)}, what='%s: the run with point budget %s did not stop within %d s' % (name, mx, c.get('timeout', 240)))
             continue
         except Exception as ex:
             rep.violation('C13_NoException', {'strategy': c['strategy'], 'exception': type(ex).__name__, 'error_calculator': c.get('ec', 'default'), 'probe': True},
